@@ -55,12 +55,18 @@ def features(h, uni=None):
     recommit = False
     created_spent = False
     restored = False
+    siblings = False
     seen_main = {}
 
     def detach(blocks):
-        nonlocal created_spent, restored
+        nonlocal created_spent, restored, siblings
         txs = set(t for x in blocks for t in commits.get(x, []))
         if uni:
+            # one detached block holds two separate transactions that spend outputs of ONE transaction staying on the chain
+            for x in blocks:
+                srcs = [set(i[0] for i in uni[t - 1]["ins"]) - txs for t in commits.get(x, [])]
+                if any(srcs[a] & srcs[b] for a in range(len(srcs)) for b in range(a + 1, len(srcs))):
+                    siblings = True
             for t in txs:
                 for i in uni[t - 1]["ins"]:
                     if i[0] in txs:
@@ -91,16 +97,16 @@ def features(h, uni=None):
             tip = s["b"]
     return (depth_max, recommit, any(s["a"] == "Truncate" for s in h), any(s.get("res") == "failed" for s in h),
             any(s.get("us") for s in h), max([len(s.get("cs", [])) for s in h] + [0]),
-            tuple(s["p"] for s in h if s["a"] == "Mint"), created_spent, restored)
+            tuple(s["p"] for s in h if s["a"] == "Mint"), created_spent, restored, siblings)
 
 
 FLAGS = ["reorg_depth2", "reorg", "recommit", "truncate", "refused", "uncle", "two_commits", "in_block_chain",
-         "created_and_spent_detached", "restored_input"]
+         "created_and_spent_detached", "restored_input", "sibling_spenders_detached"]
 
 
 def flags(h, uni):
     f = features(h, uni)
-    return {"created_and_spent_detached": f[7], "restored_input": f[8], "reorg_depth2": f[0] >= 2, "reorg": f[0] >= 1, "recommit": f[1], "truncate": f[2], "refused": f[3], "uncle": f[4],
+    return {"created_and_spent_detached": f[7], "restored_input": f[8], "sibling_spenders_detached": f[9], "reorg_depth2": f[0] >= 2, "reorg": f[0] >= 1, "recommit": f[1], "truncate": f[2], "refused": f[3], "uncle": f[4],
             "two_commits": f[5] >= 2, "in_block_chain": any(s.get("cs") in ([4, 5], [4, 6]) and s.get("ok") for s in h)}
 
 
@@ -260,6 +266,8 @@ def run(tier):
     deep = dict(MaxBlocks="5", MaxCommits="1", MaxBad="0", MaxTrunc="0", MaxForks="1", Uncles="FALSE", Emit="TRUE")
     if tier == "quick":
         mcs = [("3 blocks, 2 commits, invalid block, truncation", mc_cfg("mc3.cfg", Emit="TRUE"), 4),
+               # universe B: two separate transactions of ONE block spend the two outputs of an earlier transaction (undone together)
+               ("3 blocks, universe B", mc_cfg("mc3b.cfg", Universe='"B"', Emit="TRUE"), 4),
                ("4 blocks, 1 commit, uncles", mc_cfg("mc4.cfg", MaxBlocks="4", MaxCommits="1", MaxBad="0", MaxTrunc="0", Emit="TRUE"), 4),
                ("5 blocks, one fork (reorg depth 2), 1 commit", mc_cfg("mc5.cfg", **deep), 4)]
     else:
